@@ -483,7 +483,7 @@ def apply_set_from(sim, src, names, vtypes, ev):
     try:
         if w >= len(names):
             return "none"
-        a = src.get_array(names[w], real_period(q))
+        a = src.get_array(names[w], real_period(q, as_text=True))
     except Exception:      # noqa: BLE001
         return "none"
     if a is None:
